@@ -342,7 +342,9 @@ def run(ctx):
     ]
     bound = 2 if ctx.quick else 3
     cs = cases(ctx.quick)
-    jobs = [(c, bound if c["tasks"] < 4 else 2, 400000) for c in cs]
+    # thorough: bound 3 in full for the 2-task histories, bound 3 under an execution cap (reported) for 3 tasks,
+    # bound 2 for 4 tasks; quick: bound 2 everywhere, complete
+    jobs = [(c, bound if c["tasks"] < 4 else 2, 400000 if ctx.quick or c["tasks"] <= 2 else 40000) for c in cs]
     for part in ctx.pmap(_job, jobs):
         ctx.merge(part)
     ctx.notes["deviation_bound"] = bound
